@@ -37,3 +37,30 @@ PROPS["C18"] = {
     ],
     "rule": "stream codec: code.str for 0..70000, 2^k±1, random 32-bit; code.parse for names, near-names, code_N forms, junk; code.http through a real unary handler; http.code through real clients for 100..599; pct.enc/pct.dec/b64.enc/b64.dec for ALL byte strings up to length 2 (3 thorough) plus long random and structured decoder inputs. distinct_nontrivial counts distinct op lines.",
 }
+
+PROPS["C10"] = {
+    "title": "Deadlines propagate to the handler and are never extended",
+    "lean_module": "ConnectProofs.C10",
+    "theorems": [
+        "ConnectModel.C10.grpc_encode_bound",
+        "ConnectModel.C10.connect_encode_bound",
+        "ConnectModel.C10.connect_too_large_none",
+        "ConnectModel.C10.connect_sub_millisecond_sends_nothing",
+        "ConnectModel.C10.grpc_parse_grammatical",
+        "ConnectModel.C10.connect_parse_grammatical",
+        "ConnectModel.C10.grpc_unknown_unit",
+        "ConnectModel.C10.grpc_bad_number",
+        "ConnectModel.C10.grpc_too_long",
+        "ConnectModel.C10.connect_malformed",
+        "ConnectModel.C10.no_header_no_deadline",
+        "ConnectModel.C10.units_are",
+    ],
+    "streams": ["timeout"],
+    "design_ref": "DESIGN.md §5 C10, §6 F8",
+    "technique": "Lean 4 theorems over Int-nanosecond models of the gRPC / Connect timeout encoders and parsers (unit table regenerated from the Go source) + differential correspondence through the pinned internals, real handlers and real clients",
+    "level_text": "Machine-checked proof of the encode/parse logic for all durations in (0, 2^63) ns and all header strings: the gRPC encoding is grammatical, never longer than the remaining time and shorter by < 0.01 %; the Connect encoding is exact to the millisecond, absent beyond 10 digits; grammatical timeouts are honoured exactly or as unbounded; the malformed classes are rejected. One clause is false on the code and recorded as a known finding with a Lean witness (F8: sub-millisecond remaining time sends no Connect timeout). Partial: that the handler's context really gets the deadline is context/net/http behaviour, sampled (handler-observed deadline snapped to the millisecond grid), not proved.",
+    "level_note": "Trusted: Lean kernel; table extractor; differential harness; context.WithTimeout / time.Until (runtime); the harness brackets the clock around real client calls, so the Connect client-side encoder is checked up to the measured interval.",
+    "assumptions": ["context.WithTimeout and net/http deliver the parsed timeout to the handler context (sampled by ctmo.serve / gtmo.serve)"],
+    "not_proved": ["end-to-end propagation of the deadline into the handler's context (runtime behaviour; sampled)"],
+    "rule": "stream timeout: gtmo.enc over every unit x digit-count boundary ±1/±half unit, extremes, 10k (300k thorough) random durations; gtmo.parse over grammatical (1..8 digits x 6 units), near-grammatical, byte-random and hour-overflow strings; the same headers through a real gRPC handler (user code must not run when rejected); Connect-Timeout-Ms headers through a real Connect handler with the handler-observed deadline; real Connect/gRPC clients with deadlines from 0.5 ms to 2^63 ns.",
+}
